@@ -180,6 +180,7 @@ class Executor:
         self.counter = {}
         self.field_oids = {}
         self.heap_init = {}
+        self.in_quant = 0
         self.exact_cls = {}
         self.cur_line = 0
         self.pc.append(self.alloc0 > 0)
@@ -353,6 +354,8 @@ class Executor:
     def heap_get(self, ref: VRef, fname) -> V:
         tree = self.heap_tree(fname, ref.cls)
         v = sel(tree, ref.z)
+        if self.in_quant:
+            return v        # a bound variable may be in scope: record no facts about this read
         self._ref_facts(v)
         if isinstance(v, VSeq):
             # well-typed heap: declared element types of sequence fields hold for every stored sequence
@@ -364,7 +367,7 @@ class Executor:
 
     def _ref_facts(self, v):
         # well-formed heap: any reference read from the heap is null or allocated
-        if isinstance(v, VRef):
+        if isinstance(v, VRef) and not self.in_quant:
             self.assume(z3.And(v.z >= 0, v.z < self.alloc))
 
     def heap_set(self, ref: VRef, fname, v: V):
@@ -521,12 +524,19 @@ class Executor:
             a = VInt(z3.If(a.z, 1, 0))
         if isinstance(b, VBool) and isinstance(a, VInt):
             b = VInt(z3.If(b.z, 1, 0))
+        for x, y in ((a, b), (b, a)):
+            if getattr(x, 'strid', False) and isinstance(y, VOpaque) and y.tag == 'const' and isinstance(y.py, str):
+                if isinstance(x, VOptInt):
+                    return z3.And(z3.Not(x.isnone), x.z == self.intern(y.py))
+                return x.z == self.intern(y.py)
         if isinstance(a, VOptInt) or isinstance(b, VOptInt):
             a = coerce(a, VOptInt(True, 0))
             b = coerce(b, VOptInt(True, 0))
             return z3.And(a.isnone == b.isnone, z3.Or(a.isnone, a.z == b.z))
         if isinstance(a, (VInt, VBool)) and type(a) is type(b):
             return a.z == b.z
+        if (isinstance(a, VRef) and isinstance(b, VInt)) or (isinstance(a, VInt) and isinstance(b, VRef)):
+            return a.z == b.z       # specifications may relate object ids to uninterpreted functions over ids
         if isinstance(a, VRef) and isinstance(b, VRef):
             if node_eq:
                 return z3.Or(a.z == b.z, z3.And(a.z != 0, b.z != 0, self.uf('nodeval', 'int', 'int')(a.z) ==
@@ -556,6 +566,13 @@ class Executor:
         if isinstance(a, (VInt, VBool, VRef, VTuple, VRec, VSeq)) and isinstance(b, (VInt, VBool, VRef, VTuple, VRec, VSeq)):
             return z3.BoolVal(False)    # different kinds never compare equal
         raise Unsupported(f"equality between {kinds}")
+
+    def intern(self, text):
+        """String constants compared against symbolic string ids (type strid): distinct literals get distinct ids."""
+        tab = self.__dict__.setdefault('_intern', {})
+        if text not in tab:
+            tab[text] = 1000 + len(tab)
+        return z3.IntVal(tab[text])
 
     def uf(self, name, *sorts):
         if name not in self._ufs:
